@@ -69,6 +69,20 @@ class Poly:
                 raise AnalysisError("sqrt expansion did not terminate")
             for m in list(p.t):
                 for s, e in m:
+                    if s in _SQRT_DEFS and e <= -2 and len(_SQRT_DEFS[s].num.t) == 1 and _SQRT_DEFS[s].den.is_one():
+                        # atom**-2 -> 1/definition when the definition is a single monomial
+                        c = p.t[m]
+                        (dm, dc), = _SQRT_DEFS[s].num.t.items()
+                        rest = tuple((s2, e2) for s2, e2 in m if s2 != s)
+                        rem = e + 2
+                        inv = tuple((s3, -e3) for s3, e3 in dm)
+                        newm = _mono_mul(_mono_mul(rest, ((s, rem),) if rem else ()), inv)
+                        q = dict(p.t)
+                        del q[m]
+                        q[newm] = q.get(newm, 0) + c / dc
+                        p = Poly(q)
+                        changed = True
+                        break
                     if s in _SQRT_DEFS and e >= 2:
                         c = p.t[m]
                         rest = tuple((s2, e2) for s2, e2 in m if s2 != s)
@@ -234,6 +248,61 @@ class Rat:
             a[tuple(sorted(d.items()))] = c
         return Rat(Poly(a), self.den)
 
+    def diff(self, sym: str) -> "Rat":
+        """Partial derivative with respect to a symbol that does not occur in the denominator."""
+        if sym in self.den.symbols():
+            raise AnalysisError(f"{sym} occurs in a denominator")
+        out = {}
+        for m, c in self.num.t.items():
+            d = dict(m)
+            e = d.get(sym, 0)
+            if e == 0:
+                continue
+            if e == 1:
+                del d[sym]
+            else:
+                d[sym] = e - 1
+            k = tuple(sorted(d.items()))
+            out[k] = out.get(k, 0) + c * e
+        return Rat(Poly(out), self.den)
+
+    def subs(self, sym: str, val: "Rat") -> "Rat":
+        """Substitute a symbol (non-negative integer powers in the numerator, absent from the
+        denominator) by a value."""
+        if sym in self.den.symbols():
+            # allow monomial denominators handled by Laurent exponents only
+            raise AnalysisError(f"{sym} occurs in a denominator")
+        total = Rat.const(0)
+        for m, c in self.num.t.items():
+            d = dict(m)
+            e = d.pop(sym, 0)
+            term = Rat(Poly({tuple(sorted(d.items())): c}))
+            if e < 0:
+                term = term / (val ** (-e))
+            elif e > 0:
+                term = term * (val ** e)
+            total = total + term
+        return total / Rat(self.den)
+
+    def subs_many(self, mapping: dict) -> "Rat":
+        """Simultaneous substitution of several symbols."""
+        for sym in mapping:
+            if sym in self.den.symbols():
+                raise AnalysisError(f"{sym} occurs in a denominator")
+        total = Rat.const(0)
+        for m, c in self.num.t.items():
+            rest = {}
+            term = Rat.const(1)
+            for sname, e in m:
+                if sname in mapping:
+                    v = mapping[sname]
+                    term = term * (v ** e) if e > 0 else term / (v ** (-e))
+                else:
+                    rest[sname] = e
+            term = term * Rat(Poly({tuple(sorted(rest.items())): c}))
+            total = total + term
+        return total / Rat(self.den)
+
     def without(self, sym: str) -> "Rat":
         return Rat(Poly({m: c for m, c in self.num.t.items() if sym not in dict(m)}), self.den)
 
@@ -265,6 +334,15 @@ def sqrt_of(x: Rat) -> Rat:
             rn, rd = math.isqrt(n), math.isqrt(d)
             if rn * rn == n and rd * rd == d:
                 return Rat.const(Fraction(rn, rd))
+    # exact root of a single monomial with even exponents and a perfect-square coefficient
+    if x.den.is_one() and len(x.num.t) == 1:
+        (m, c), = x.num.t.items()
+        import math as _m
+
+        if c > 0 and all(e % 2 == 0 for _s, e in m):
+            rn, rd = _m.isqrt(c.numerator), _m.isqrt(c.denominator)
+            if rn * rn == c.numerator and rd * rd == c.denominator:
+                return Rat(Poly({tuple((s_, e // 2) for s_, e in m): Fraction(rn, rd)}))
     name = f"sqrt[{x!r}]"
     _SQRT_DEFS[name] = x
     return Rat.sym(name)
